@@ -105,7 +105,7 @@ def rand_case(rng, n_files=None):
     return {"name": rng.choice(["dep-1", "my.dep", "d_2", "Dep"]), "version": rng.choice(["1.0", "2.10.3", "0.1"]),
             "scripts": scripts, "sheets": sheets, "source_kind": rng.choice(["abs", "abs", "rel", "pkg", "pkg_libtest", "url", "url_slash", "none"]),
             "all_files": rng.random() < 0.25, "libdir": rng.choice(["lib", "lib", None, "a/b", "lib x"]), "include_version": rng.random() < 0.6,
-            "prepopulate": rng.random() < 0.5, "prepopulate_same_names": rng.random() < 0.5, "copied_before": rng.random() < 0.4,
+            "prepopulate": rng.random() < 0.5, "prepopulate_same_names": rng.random() < 0.5, "copied_before": rng.random() < 0.4, "positional_args": rng.random() < 0.4,
             "via": rng.choice(["document", "tag", "list", "copy_to"]), "missing": []}
 
 
@@ -247,7 +247,10 @@ def _run_case(ctx, case, scratch, dep, srcdir, scripts, sheets, wit):
             else:
                 content = ht.div("body text", dep)
                 obj = ht.HTMLDocument(content) if via == "document" else content if via == "tag" else ht.TagList("t", content)
-                ret = obj.save_html(file, libdir=libdir, include_version=iv)
+                if via == "document" and case.get("positional_args"):
+                    ret = obj.save_html(file, libdir, iv)       # HTMLDocument.save_html takes them positionally as well
+                else:
+                    ret = obj.save_html(file, libdir=libdir, include_version=iv)
         except Exception as e:
             exc = e
         events = list(ev)
